@@ -15,8 +15,8 @@ from common import hx
 RULE = ("2-3 threads evaluating queries that share prefixes or link sub-queries x seeded schedules at cache-operation granularity with up to 3 "
         "(thorough: 5) pre-emptions, on MemoryCache, FileCache and StoreCache(MemoryStore); non-trivial = distinct (queries, schedule) in which "
         "a thread was pre-empted between two of its cache operations")
-TRUSTED = EP.TRUSTED + ["deterministic scheduler: threads blocked on semaphores, one runs at a time, yield point before every cache operation; consecutive "
-                        "store_metadata calls of one thread on one key are one scheduling unit (as in LiquerModel/Conc.lean canonTrace)"]
+TRUSTED = EP.TRUSTED + ["deterministic scheduler: threads blocked on semaphores, one runs at a time, yield point before every get / store / remove of the "
+                        "shared cache; the store_metadata calls after such an operation run with it (as in LiquerModel/Conc.lean stepThread)"]
 ASSUMPTIONS = EP.ASSUMPTIONS + ["pre-emption inside one cache operation (between Python byte codes, or between the file operations of a file-backed cache) "
                                 "is not exhibited: each cache operation is atomic in the model"]
 EXPLANATION = "theorems in Props/C12.lean (every cache operation an evaluation issues preserves Sound under any interleaving)"
@@ -45,20 +45,13 @@ class Scheduler:
             return
         tr = self.traces[t]
         if kind == "M":
-            cls = "r" if status == "ready" else "e" if status == "error" else "o"
-            if tr and isinstance(tr[-1], dict):
-                tr[-1][hx(key)] = cls          # same scheduling unit: a run of consecutive progress writes
-                return
-            self.main.release()       # reached a yield point
-            self.sems[t].acquire()    # wait to be scheduled
-            tr.append({hx(key): cls})
-            return
+            return                    # progress writes are not pre-emption points: they run with the operation before them
         self.main.release()
         self.sems[t].acquire()
         tr.append("%s:%s" % (kind, hx(key)))
 
     def trace_text(self, t):
-        return ",".join("M:" + "+".join(sorted("%s:%s" % kv for kv in x.items())) if isinstance(x, dict) else x for x in self.traces[t])
+        return ",".join(self.traces[t])
 
     def step(self, t):
         """let thread t perform its pending operation and run to its next yield point (or finish)"""
